@@ -81,6 +81,7 @@ impl HasTracableInfo for SpanInfo {
     }
 }
 
+#[cfg(not(feature = "verif_hooks"))]
 impl HasExtraState<bool> for SpanInfo {
     fn get_extra_state(&self) -> bool {
         in_directive()
@@ -89,7 +90,13 @@ impl HasExtraState<bool> for SpanInfo {
 
 // -----------------------------------------------------------------------------
 
+#[cfg(not(feature = "verif_hooks"))]
 nom_packrat::storage!(AnyNode, bool, 1024);
+
+#[cfg(feature = "verif_hooks")]
+pub mod verif_hooks;
+#[cfg(feature = "verif_hooks")]
+pub(crate) use verif_hooks::PACKRAT_STORAGE;
 
 pub fn sv_parser(s: Span) -> IResult<Span, SourceText> {
     init();
